@@ -8,10 +8,10 @@ open AsciiStr
 namespace Style
 
 theorem numbered_colors_wf_tbl :
-    (List.range 256).all (fun n => wfColor Variant.fixed (numberedColor n)) = true := by
+    (List.range 256).all (fun n => wfColor StyleVariant.fixed (numberedColor n)) = true := by
   decide +kernel
 
-theorem numbered_color_wf (v : Variant) {n : Nat} (hn : n < 256) : wfColor v (numberedColor n) = true :=
+theorem numbered_color_wf (v : StyleVariant) {n : Nat} (hn : n < 256) : wfColor v (numberedColor n) = true :=
   wfColor_indep (List.all_eq_true.mp numbered_colors_wf_tbl n (List.mem_range.mpr hn))
 
 end Style
